@@ -2,6 +2,7 @@ package rules
 
 import (
 	"fmt"
+	"go/types"
 
 	"golang.org/x/tools/go/ssa"
 
@@ -62,22 +63,50 @@ func LoopShare(c *Ctx, cfg string, pkgs []string) {
 					continue
 				}
 				obj := stripConv(stored)
-				call, isCall := obj.(*ssa.Call)
-				if !isCall || call.Block() == nil || inLoop[call.Block()] == hdr || !call.Block().Dominates(hdr) {
-					continue // allocated inside the loop (fresh per iteration) or not a dominating allocation
-				}
-				if _, isRef := obj.Type().Underlying().(interface{ NumMethods() int }); !isRef {
-					continue
-				}
-				// mutated inside the same loop?
-				mutated := false
-				for _, r := range *obj.Referrers() {
-					rc, ok := r.(*ssa.Call)
-					if !ok || inLoop[rc.Block()] != hdr {
+				var call ssa.Instruction
+				switch o := obj.(type) {
+				case *ssa.Call:
+					if _, isRef := o.Type().Underlying().(interface{ NumMethods() int }); !isRef {
+						if _, isPtr := o.Type().Underlying().(*types.Pointer); !isPtr {
+							continue
+						}
+					}
+					call = o
+				case *ssa.Alloc:
+					if !o.Heap {
 						continue
 					}
-					if recv := mutatorCall(&rc.Call); recv != nil && stripConv(recv) == obj {
-						mutated = true
+					call = o
+				default:
+					continue
+				}
+				if call.Block() == nil || inLoop[call.Block()] == hdr || !call.Block().Dominates(hdr) {
+					continue // allocated inside the loop (fresh per iteration) or not a dominating allocation
+				}
+				// mutated inside the same loop? (kyber mutator on it, or a store into one of its fields/elements)
+				mutated := false
+				for _, r := range *obj.Referrers() {
+					ri, ok := r.(ssa.Instruction)
+					if !ok || inLoop[ri.Block()] != hdr {
+						continue
+					}
+					switch rc := r.(type) {
+					case *ssa.Call:
+						if recv := mutatorCall(&rc.Call); recv != nil && stripConv(recv) == obj {
+							mutated = true
+						}
+					case *ssa.FieldAddr:
+						for _, rr := range *rc.Referrers() {
+							if st, ok := rr.(*ssa.Store); ok && st.Addr == ssa.Value(rc) {
+								mutated = true
+							}
+						}
+					case *ssa.IndexAddr:
+						for _, rr := range *rc.Referrers() {
+							if st, ok := rr.(*ssa.Store); ok && st.Addr == ssa.Value(rc) {
+								mutated = true
+							}
+						}
 					}
 				}
 				if mutated {
